@@ -431,3 +431,30 @@ def select_leaf(t, env):
     while isinstance(t, Ite):
         t = t.a if evaluate(t.c, env) else t.b
     return t
+
+
+def implies(a, b, domain=None):
+    """a => b for all valuations of the opaque atoms (booleans/ints sampled, see equivalent)"""
+    viol = and_(a, not_(b))
+    if viol == FALSE:
+        return True, None
+    ok, env, n = equivalent(ite(viol, Const(1), Const(0)), Const(0), domain=bool_domain(viol, domain))
+    return ok, env
+
+
+def bool_domain(t, extra=None):
+    """atoms used as conditions get a boolean domain (keeps enumeration exhaustive)"""
+    dom = dict(extra or {})
+    for l in opaque_leaves(t):
+        if l in dom:
+            continue
+        if isinstance(l, Sym) and l.kind in ("exc",):
+            dom[l] = [False, True]
+        elif isinstance(l, Op) and (l.op in ("truthy", "in", "notin", "is", "isnot", "isinstance", "exists") or
+                                    l.op.startswith("attr:") or l.op.startswith("call:") or l.op.startswith("m:")):
+            dom[l] = [False, True]
+        elif isinstance(l, Sym):
+            dom[l] = [False, True] if l.kind != "int" else [0, 1, 2, 255]
+        elif isinstance(l, Op) and l.op in ("len", "getitem", "unpack", "elem"):
+            dom[l] = [0, 1, 2]
+    return dom
